@@ -3,7 +3,8 @@ from .. import ep
 from ..model import AnalysisError
 from ..values import *     # noqa
 from ..strtree import *    # noqa
-from ..symeval_ops import PyObjV
+from ..symeval import RaiseSignal
+from ..symeval_ops import PyObjV, ExcV
 from .. import writerules as W
 from .. import excelmodel
 
@@ -124,9 +125,97 @@ def run(chk):
         r = chk.attempt(ci.name, one)
         nev += r or 0
     chk.info["evaluation_sites_seen"] = nev
+    chk.rule("C17.R", "a write() that failed leaves nothing behind in the tabulation object: writing again (the function still failing) "
+                      "fails again or emits nothing - never a table assembled from the half-built state", 20)
+    for fq, (ci, how) in sorted(classes.items()):
+        chk.attempt("R/" + ci.name, lambda ci=ci, how=how: retry(chk, P, ci, how))
     chk.attempt("A", lambda: action_tabulate(chk, P))
     chk.assume("I/O failures of fp itself and failures inside openpyxl's save are not considered")
     chk.assume("Excel targets are summarised on a two-potential / two-element model (their cell loops need concrete column counts)")
+
+
+class _Failing(object):
+    """a user function outside its domain: every evaluation raises"""
+    def __init__(self, role):
+        self.role = role
+        self.calls = 0
+
+    def m___call__(self, I, args, kwargs):
+        _ = (args, kwargs)
+        self.calls += 1
+        raise RaiseSignal(ExcV(ExtV("builtins.ValueError"), [Const("math domain error in the %s function" % self.role)]), None)
+
+
+def _failing_model(I, P, ci, role):
+    """constructor arguments of a two-element model in which every function of the given role fails"""
+    fs = "Finnis" in ci.name or "_FS_" in ci.name
+    fail = _Failing(role)
+
+    def f(r, nm):
+        return PyObjV(fail) if r == role else W.param(nm)
+    pot = P.cls(*W.POT)
+    eam = P.cls(*W.EAMPOT)
+
+    def pots(r, prefix):
+        return ListV([I.instantiate(pot, [Const(a), Const(b), f(r, "%s_%s%s" % (prefix, a, b))], {}, None)
+                      for a, b in (("Al", "Al"), ("Al", "Cu"))], "list")
+    eams = []
+    for a in ("Al", "Cu"):
+        if fs:
+            d = DictV()
+            for b in ("Al", "Cu"):
+                d.items[Const(b).key()] = (Const(b), f("density", "rho_%s_%s" % (a, b)))
+        else:
+            d = f("density", "rho_" + a)
+        eams.append(I.instantiate(eam, [Const(a), Num(ep.const(1)), Num(ep.const(1)), f("embedding", "F_" + a), d], {}, None))
+    args = []
+    for p in ci.lookup("__init__").params()[1:]:
+        if p == "potentials":
+            args.append(pots("pair", "phi"))
+        elif p == "eam_potentials":
+            args.append(ListV(eams, "list"))
+        elif p == "dipole_potentials":
+            args.append(pots("dipole", "u"))
+        elif p == "quadrupole_potentials":
+            args.append(pots("quadrupole", "w"))
+        else:
+            args.append(W.nsym(p))
+    return args, fail
+
+
+def retry(chk, P, ci, how):
+    params = ci.lookup("__init__").params()
+    roles = ["pair"]
+    if "eam_potentials" in params:
+        roles += ["density", "embedding"]
+    if "dipole_potentials" in params:
+        roles += ["dipole", "quadrupole"]
+    site = ci.lookup("write").site()
+    for role in roles:
+        I = W.make_interp(P)
+        excelmodel.install(I)
+        args, fail = _failing_model(I, P, ci, role)
+        inst = I.instantiate(ci, args, {}, None)
+        outcome = []
+        for attempt in (1, 2):
+            fp = BufV("fp", is_file=True)
+            try:
+                W.run_method(I, inst, "write", [fp])
+                raised = None
+            except RaiseSignal as e:
+                raised = e.exc
+            outcome.append((raised, bool(fp.pieces)))
+        (r1, o1), (r2, o2) = outcome
+        if r1 is None and not fail.calls:
+            raise AnalysisError("%s.write never evaluates a %s function of the model" % (ci.name, role))
+        ok1 = r1 is not None and not o1
+        ok2 = not o2
+        what = "%s.write with a failing %s function: the first call fails without output" % (ci.name, role)
+        chk.ob("C17.R", what, ok1, site=site, found="returns" if r1 is None else ("fails after output" if o1 else "fails, no output"),
+               expect="fails, no output", path=how, key="C17.R|%s|%s|first" % (ci.name, role))
+        chk.ob("C17.R", "%s.write with a failing %s function: a second write on the same object emits nothing either" % (ci.name, role), ok2,
+               site=site, found=("returns with output" if r2 is None else "fails after output") if o2 else ("fails, no output" if r2 is not None else "returns, no output"),
+               expect="no output (the failure is met again, or nothing is written)", path=how, key="C17.R|%s|%s|second" % (ci.name, role))
 
 
 class _Recorder(object):
